@@ -167,6 +167,9 @@ func (x *Exec) binop(st *State, fr *Frame, in *ssa.BinOp) Val {
 		if uns {
 			return Val{S: x.S.Define("i", "Int", wrapInt(raw, rt)), T: rt}
 		}
+		if x.contract != nil && x.contract.WrapArith {
+			return Val{S: x.S.Define("i", "Int", wrapInt(raw, rt)), T: rt}
+		}
 		r := x.S.Define("i", "Int", raw)
 		if x.contract != nil && x.contract.OvfCheck {
 			x.oblige(st, fr, in, "ovf", inRange(r, rt), "signed integer overflow")
@@ -258,6 +261,12 @@ func (x *Exec) binop(st *State, fr *Frame, in *ssa.BinOp) Val {
 	case token.XOR:
 		if intBits(rt) <= 8 {
 			return Val{S: x.S.Define("i", "Int", bitwise8(as, bs, "xor")), T: rt}
+		}
+		if !uns {
+			// x ^ 0 = x and x ^ -1 = ^x = -x-1 exactly (the zig-zag coding uses a
+			// mask that is 0 or -1); anything else stays uninterpreted
+			t := fmt.Sprintf("(ite (= %s 0) %s (ite (= %s (- 1)) (- (- %s) 1) (ite (= %s 0) %s (ite (= %s (- 1)) (- (- %s) 1) (bxor %s %s)))))", bs, as, bs, as, as, bs, as, bs, as, bs)
+			return Val{S: x.S.Define("i", "Int", t), T: rt}
 		}
 		return Val{S: "(bxor " + as + " " + bs + ")", T: rt}
 	case token.AND_NOT:
@@ -356,6 +365,9 @@ func (x *Exec) unop(st *State, fr *Frame, in *ssa.UnOp) Val {
 		}
 		if isUnsigned(t) {
 			return Val{S: wrapInt("(- "+v+")", t), T: t}
+		}
+		if x.contract != nil && x.contract.WrapArith {
+			return Val{S: x.S.Define("i", "Int", wrapInt("(- "+v+")", t)), T: t}
 		}
 		r := x.S.Define("i", "Int", "(- "+v+")")
 		if x.contract != nil && x.contract.OvfCheck {
@@ -477,8 +489,8 @@ func (x *Exec) makeSlice(st *State, fr *Frame, in *ssa.MakeSlice) Val {
 		sz = 1
 	}
 	if x.allocBound != nil {
-		x.oblige(st, fr, in, "make", And("(<= 0 "+l+")", "(<= "+l+" "+c+")", fmt.Sprintf("(<= (* %s %d) %s)", c, sz, maxSliceElems)),
-			"makeslice: len/cap out of range")
+		// the size is bounded relative to the input by the alloc obligation below
+		x.oblige(st, fr, in, "make", And("(<= 0 "+l+")", "(<= "+l+" "+c+")"), "makeslice: negative len or len > cap")
 	} else {
 		x.oblige(st, fr, in, "make", And("(<= 0 "+l+")", "(<= "+l+" "+c+")"), "makeslice: negative len or len > cap")
 		x.assume(st, fmt.Sprintf("(<= (* %s %d) %s)", c, sz, maxSliceElems))
